@@ -358,12 +358,17 @@ def _run(case, ctx):
         return
     # history clause: the figures recorded for the selected mode equal an independent fixed-mode computation
     import numpy as np
-    a, b = res['path'][-1], fixed[expected['format']][0]['path'][-1]
-    for name in ('snr_01nm', 'osnr_ase_01nm', 'snr', 'osnr_ase', 'osnr_nli'):
-        x, y = np.asarray(getattr(a, name)), np.asarray(getattr(b, name))
-        if x.shape != y.shape or np.max(np.abs(x - y)) > 1e-9:
-            ctx.violation('auto-mode-figures-differ-from-fixed-mode', f'{name}: auto {x[:3]} fixed {y[:3]}')
-            return
+    pairs = [('forward', res['path'][-1], fixed[expected['format']][0]['path'][-1])]
+    if case['bidir'] and res['rpath'] and fixed[expected['format']][0]['rpath']:
+        # the reverse direction is propagated with the selected mode as well (baud rate, power offset, tx OSNR)
+        pairs.append(('reverse', res['rpath'][-1], fixed[expected['format']][0]['rpath'][-1]))
+    for direction, a, b in pairs:
+        for name in ('snr_01nm', 'osnr_ase_01nm', 'snr', 'osnr_ase', 'osnr_nli'):
+            x, y = np.asarray(getattr(a, name)), np.asarray(getattr(b, name))
+            if x.shape != y.shape or np.max(np.abs(x - y)) > 1e-9:
+                ctx.violation('auto-mode-figures-differ-from-fixed-mode' + ('' if direction == 'forward' else ':reverse'),
+                              f'{direction} {name}: auto {x[:3]} fixed {y[:3]}')
+                return
     ctx.nontrivial(len(order) >= 2)
 
 
